@@ -1,5 +1,10 @@
 package main
 
+import (
+	"go/ast"
+	"strings"
+)
+
 func init() {
 	register(&Property{
 		ID:    "C24",
@@ -7,16 +12,103 @@ func init() {
 		Explain: "E2(a) gate pairing typestate over every user of a gate.Gate-shaped value (methods Start(context.Context) error / Done()) in ./pkg/... ./cmd/... ./internal/...: " +
 			"per function (function literals analysed separately, closures handed to tracing.DoInSpan* inlined) a forward dataflow over go/cfg tracks {not-started, start-error-untested, held, held+deferred-Done, released, start-failed}; " +
 			"`err != nil` / `err == nil` branches on the variable bound to Start's result move untested→failed/held. Done (called or deferred) is legal only in state held; an exit in state held is a leaked slot. " +
-			"This decides the pairing clause (Done only after a successful Start, exactly one Done per successful Start on all paths) which is necessary for 'the limit is never exceeded and waiting requests never crash'; it does not decide the gate implementation itself.",
+			"This decides the pairing clause (Done only after a successful Start, exactly one Done per successful Start on all paths) which is necessary for 'the limit is never exceeded and waiting requests never crash'; it does not decide the gate implementation itself. " +
+			"Wiring: Limiter.loadConfig installs the limiting gate under exactly one condition, max_concurrency > 0 (no receiver mode, tenant or other setting in the path condition), and the protobuf and OTLP handlers take their gate from Limiter.WriteGate().",
 		Assume: []string{"prometheus/util/gate.Gate and the thanos wrappers in pkg/gate implement a counting semaphore (trusted, exempt from the pairing rule because pairing spans two methods)",
 			"tracing.DoInSpan / DoInSpanWithErr / DoWithSpan run their function argument synchronously exactly once (checked by reading; frozen table)"},
 		Run: func(c *Ctx) {
 			c.Rule("gate-pairing", "Done (called or deferred) only in state 'Start returned nil'; no exit while held without Done; Start's error is tested", 7)
+			c.Rule("gate-installed-iff-limit-configured", "the limiting gate replaces the no-op gate whenever max_concurrency > 0, whatever else is configured; both write endpoints use the limiter's gate", 3)
 			p := c.Load("pkg/...", "cmd/...", "internal/...")
 			if p == nil {
 				return
 			}
 			checkGatePairing(c, p, "gate-pairing")
+			runC24Config(c, p)
 		},
 	})
+}
+
+func runC24Config(c *Ctx, p *Prog) {
+	const rel, rule = "pkg/receive", "gate-installed-iff-limit-configured"
+	fn := p.Func(rel, "Limiter", "loadConfig")
+	if fn == nil {
+		c.Incomplete(rule, rel+".(*Limiter).loadConfig", "", "function not found")
+		return
+	}
+	info := fn.Info()
+	n := 0
+	ast.Inspect(fn.Body(), func(nd ast.Node) bool {
+		as, ok := nd.(*ast.AssignStmt)
+		if !ok || len(as.Lhs) != 1 || len(as.Rhs) != 1 {
+			return true
+		}
+		sel, ok := unparen(as.Lhs[0]).(*ast.SelectorExpr)
+		if !ok || sel.Sel.Name != "writeGate" {
+			return true
+		}
+		n++
+		var extra []string
+		limit := false
+		for _, g := range guardsOf(p, fn, as) {
+			t := canon(g.Cond)
+			var atoms []string
+			refine(g.Cond, g.Pol, func(atom ast.Expr, tv bool) {
+				if _, _, isNilTest := nilTest(info, atom); isNilTest {
+					return // error / nil tests of loading the configuration itself
+				}
+				a := expandDefText(fn, info, atom)
+				if be, ok := unparen(atom).(*ast.BinaryExpr); ok {
+					a = expandDefText(fn, info, be.X) + be.Op.String() + expandDefText(fn, info, be.Y)
+				}
+				if !tv {
+					a = "!(" + a + ")"
+				}
+				atoms = append(atoms, strings.ReplaceAll(a, " ", ""))
+			})
+			if len(atoms) == 0 {
+				if _, _, isNilTest := nilTest(info, g.Cond); !isNilTest {
+					atoms = []string{t}
+				}
+			}
+			for _, a := range atoms {
+				switch {
+				case strings.HasSuffix(a, ".MaxConcurrency>0") || strings.HasSuffix(a, ".MaxConcurrency!=0"):
+					limit = true
+				default:
+					extra = append(extra, a)
+				}
+			}
+		}
+		bad := ""
+		switch {
+		case !limit:
+			bad = "the limiting gate is not installed under `max_concurrency > 0`"
+		case len(extra) > 0:
+			bad = "the limiting gate is installed only if also " + strings.Join(extra, " and ") + ": with that condition false the receiver keeps the no-op gate although a maximum concurrency is configured"
+		}
+		c.Check(bad == "", rule, rel+".(*Limiter).loadConfig#install", p.Pos(as.Pos()), "gate-install-condition", bad)
+		return true
+	})
+	if n == 0 {
+		c.Incomplete(rule, rel+".(*Limiter).loadConfig#install", p.Pos(fn.Decl.Pos()), "no assignment to the write gate found")
+	}
+	// both endpoints take the gate from the limiter
+	for _, h := range [][2]string{{"Handler", "receiveHTTP"}, {"Handler", "receiveOTLPHTTP"}} {
+		hf := p.Func(rel, h[0], h[1])
+		if hf == nil {
+			c.Incomplete(rule, rel+".(*Handler)."+h[1], "", "function not found")
+			continue
+		}
+		ok := false
+		ast.Inspect(hf.Body(), func(nd ast.Node) bool {
+			if call, isCall := nd.(*ast.CallExpr); isCall {
+				if f := calleeOf(hf.Info(), call); f != nil && f.Name() == "WriteGate" {
+					ok = true
+				}
+			}
+			return true
+		})
+		c.Check(ok, rule, rel+".(*Handler)."+h[1]+"#uses-limiter-gate", p.Pos(hf.Decl.Pos()), "endpoint-without-limiter-gate", "the endpoint does not take its gate from Limiter.WriteGate()")
+	}
 }
